@@ -131,7 +131,10 @@ class FNode:
 
 def fnode_flatten(x):
     INJ.tick('flatten')
-    return x.children, FMeta(x.v), tuple(range(len(x.children)))
+    # odd nodes hand out a fresh container (then the children themselves carry the engine's references),
+    # even nodes their stored list
+    ch = tuple(x.children) if isinstance(x.v, int) and x.v % 2 else x.children
+    return ch, FMeta(x.v), tuple(range(len(x.children)))
 
 
 def fnode_unflatten(md, children):
@@ -164,7 +167,10 @@ def children_of(x):
             out.append(v)
         return out
     if isinstance(x, (FNode, world.CustBase)):
-        return list(x.children)
+        # the stored children container is itself an operand object: a flatten function that hands it
+        # out makes the engine hold a reference to it while the children are traversed
+        box = [x.children] if isinstance(x.children, (list, tuple)) else []
+        return box + list(x.children)
     return []
 
 
@@ -256,7 +262,8 @@ def leaf(i):
 def tree_plain():
     return {'b': (leaf(1), [leaf(2), None]), 'a': FNode([leaf(3), (leaf(4),)], 7),
             'c': OrderedDict([('z', leaf(5)), ('y', deque([leaf(6)], maxlen=3))]),
-            'd': defaultdict(list, {'k': Pt(leaf(7), FNode([], 1))})}
+            'd': defaultdict(list, {'k': Pt(leaf(7), FNode([], 1))}),
+            'e': FNode([leaf(8), FNode([leaf(9), [leaf(10)]], 3)], 2)}
 
 
 def tree_keys():
